@@ -38,3 +38,11 @@ def json_down_up(tgAsDict):
     (as written) and converted back (as read); json.dumps / json.loads in between are assumption A3"""
     from praatio.utilities import textgrid_io
     return textgrid_io._upconvertDictionaryFromJson(textgrid_io._downconvertDictionaryForJson(tgAsDict))
+
+
+def tg_dict_roundtrip(tg, reportingMode):
+    """C01: the object -> dictionary -> object stages at the two ends of save / open (everything in between is the
+    format writer / reader)"""
+    from praatio.data_classes import textgrid as tgclasses
+    from praatio import textgrid as tgmod
+    return tgmod._dictionaryToTg(tgclasses._tgToDictionary(tg), reportingMode)
